@@ -21,7 +21,8 @@ def FLOORS(tier):
     q = tier == "quick"
     f = {"symbolic-values": 100 if q else 5000, "normalize-method": 300, "subvalue-method": 300, "subgraph-method": 300,
          "complete-assignment": 100, "empty-assignment": 60, "plain-polynomial:subvalue": 60,
-         "plain-polynomial:subgraph": 60}
+         "plain-polynomial:subgraph": 60, "values-container:defaultdict": 150, "values-container:Counter": 150,
+         "sympy-number-coefficients": 200}
     for fn in ("subvalue", "subgraph", "normalize"):
         for t in ALLT:
             f["%s:%s" % (fn, t)] = 40 if q else 1500
@@ -43,6 +44,11 @@ def build(rng, tn, kind):
         k = tuple(gen.sort_labels(rng.sample(labs, rng.randint(0, min(len(labs), 2 if deg2 else 4)))))
         terms[k] = terms.get(k, 0) + rng.choice(gen.DYADIC)
     terms = {k: v for k, v in terms.items() if v}
+    if not mat and rng.random() < 0.15:
+        # coefficients that are sympy numbers (what is left when the symbols of a symbolic model cancel or are simplified)
+        import sympy
+        terms = {k: (sympy.Rational(str(F(v))) if rng.random() < 0.7 else v) for k, v in terms.items()}
+        build.sympy_numbers = True
     if tn == "dict":
         m = dict(terms)
     elif tn == "DictArithmetic":
@@ -128,9 +134,12 @@ def case(ctx, rng, idx):
         return plain_case(ctx, rng)
     tn = rng.choice(ALLT)
     kind = kind_of_name(tn, rng)
+    build.sympy_numbers = False
     m, labs = build(rng, tn, kind)
     if not m:
         return
+    if build.sympy_numbers:
+        ctx.cat("sympy-number-coefficients")
     # plain dicts / DictArithmetic have no squashing: keys are sets of distinct labels, 'kind' only names the algebra
     p = ref.from_raw("bool", dict(m)) if tn in ("dict", "DictArithmetic") else ref.from_raw(kind, dict(m))
     fn = rng.choice(["subvalue", "subgraph", "normalize"])
@@ -157,6 +166,7 @@ def case(ctx, rng, idx):
         if chosen and set(chosen) >= p.vars():
             ctx.cat("complete-assignment")
         w["values"] = vals
+        vals, vsnap = container(ctx, rng, vals, w)
         if method:
             ctx.cat("subvalue-method")
             ok, r = ctx.call("subvalue", m.subvalue, vals, _w=w)
@@ -166,6 +176,10 @@ def case(ctx, rng, idx):
             return
         if not check_common(ctx, fn, m, snap, r, w):
             return
+        if dict(vals) != vsnap:
+            ctx.violation("subvalue:values-argument-mutated", "the values mapping changed from %r to %r" % (vsnap, dict(vals)), w)
+            return
+        vals = vsnap
         if not compare(ctx, fn, kind if tn not in ("dict", "DictArithmetic") else "bool", r, p, vals, syms, rng, w):
             return
         if len(p.d) >= 2 and chosen:
@@ -178,6 +192,10 @@ def case(ctx, rng, idx):
         if rng.random() < 0.7:
             conn = {x: rng.choice([0, 1, -1, 2]) for x in rng.sample(labs, rng.randint(0, len(labs)))}
         w["nodes"], w["connections"] = nodes, conn
+        csnap = None
+        if conn is not None:
+            conn, csnap = container(ctx, rng, conn, w)
+            w["connections"] = conn
         if method:
             ctx.cat("subgraph-method")
             ok, r = ctx.call("subgraph", m.subgraph, nodes, conn, _w=w)
@@ -187,6 +205,11 @@ def case(ctx, rng, idx):
             return
         if not check_common(ctx, fn, m, snap, r, w):
             return
+        if csnap is not None and dict(conn) != csnap:
+            ctx.violation("subgraph:connections-argument-mutated", "the connections mapping changed from %r to %r" % (csnap, dict(conn)), w)
+            return
+        conn = csnap
+        w["connections"] = csnap
         full = {x: (conn or {}).get(x, 0) for x in p.vars() if x not in nodes}
         base = p - Poly(p.kind, {(): p.offset()})
         if not compare(ctx, fn, p.kind, r, base, full, {}, rng, w):
@@ -243,6 +266,26 @@ def case(ctx, rng, idx):
         ctx.count("second-call-after-result-edited")
         if ok and (r2 is r or {k: repr(v) for k, v in r2.items()} != {k: repr(v) for k, v in first.items()}):
             ctx.violation(fn + ":second-call-differs", "after the first result was edited, the same call gives %r (first: %r)" % (dict(r2), first), w)
+
+
+def container(ctx, rng, vals, w):
+    """the mapping of substituted values as a dict, or as a dict subclass whose lookup never raises (defaultdict, Counter):
+    which variables are substituted is decided by membership, and the caller's mapping is not to be filled"""
+    import collections
+    snap = dict(vals)
+    how = rng.choice(["dict", "dict", "defaultdict", "Counter", "OrderedDict"])
+    w["values_container"] = how
+    ctx.cat("values-container:" + how)
+    if how == "defaultdict":
+        return collections.defaultdict(int, vals), snap
+    if how == "Counter":
+        c = collections.Counter()
+        for k, v in vals.items():
+            c[k] = v
+        return c, snap
+    if how == "OrderedDict":
+        return collections.OrderedDict(vals), snap
+    return vals, snap
 
 
 def check_common(ctx, fn, m, snap, r, w):
